@@ -151,7 +151,8 @@ def _to_hashable(value):
     if isinstance(value, (list, tuple)):
         return tuple(_to_hashable(v) for v in value)
     if isinstance(value, dict):
-        return tuple((k, _to_hashable(v)) for k, v in value.items())
+        # equal dicts are equal whatever their insertion order, so their hashable form may not depend on it
+        return frozenset((k, _to_hashable(v)) for k, v in value.items())
     return value
 
 
